@@ -164,3 +164,44 @@ func schemaSketch(s *model.Schema, text string) string {
 	}
 	return sb.String()
 }
+
+// TestValidateTableSurvey (VERIF_SURVEY=1) runs the hand-written table through the library,
+// rule by rule, and prints every (case, rule) on which library and reference disagree.
+func TestValidateTableSurvey(t *testing.T) {
+	if os.Getenv("VERIF_SURVEY") != "1" {
+		t.Skip("set VERIF_SURVEY=1")
+	}
+	b, err := build.New(tableSchema, &ref.World{S: tableSchema}, build.Options{})
+	if err != nil {
+		t.Fatal(err)
+	}
+	n := 0
+	for _, tc := range tableCases {
+		d := parseDoc(tc.doc)
+		text := model.Print(d, nil).Text
+		ast, err := parser.Parse(parser.ParseParams{Source: &source.Source{Body: []byte(text)}})
+		if err != nil {
+			fmt.Printf("TABLE %q: library does not parse %s: %v\n", tc.name, text, err)
+			continue
+		}
+		want := ref.Validate(tableSchema, d)
+		for i, rule := range ref.RuleNames {
+			var msgs []string
+			func() {
+				defer func() {
+					if r := recover(); r != nil {
+						msgs = []string{fmt.Sprint("PANIC: ", r)}
+					}
+				}()
+				for _, e := range graphql.ValidateDocument(&b.Schema, ast, []graphql.ValidationRuleFn{graphql.SpecifiedRules[i]}).Errors {
+					msgs = append(msgs, e.Message)
+				}
+			}()
+			if (len(msgs) > 0) != (len(want[rule]) > 0) {
+				n++
+				fmt.Printf("TABLE %q\n   %s\n   %s: library %q, reference %v\n", tc.name, tc.doc, rule, msgs, want[rule])
+			}
+		}
+	}
+	fmt.Printf("TABLE: %d cases, %d (case, rule) disagreements\n", len(tableCases), n)
+}
